@@ -48,6 +48,9 @@ func (c *FnCtx) reinterpret(env *Env, x *ast.StarExpr) (Val, bool) {
 	dstT := c.subst(pt.Elem())
 	srcT := c.subst(src.Typ)
 	ss, ds := c.sizeof(srcT), c.sizeof(dstT)
+	if st, ok := dstT.Underlying().(*types.Struct); ok && st.NumFields() == 0 {
+		return c.zero(dstT), true // zero-size target: nothing is read
+	}
 	if ds > ss {
 		c.unsup(x, "unsafe reinterpretation reads %d bytes from a %d-byte object (%s as %s)", ds, ss, srcT, dstT)
 	}
